@@ -927,7 +927,7 @@ func TestVerif_C29_BlockHeader(t *testing.T) {
 	defer st.Flush()
 	rapid.Check(t, func(t *rapid.T) {
 		h := BlockHeader{
-			Version: rapid.OneOf(rapid.SampledFrom([]int32{1, 2, 0x20000000, 0x3fffe000, -1, -0x80000000, 0}), rapid.Int32()).Draw(t, "version"),
+			Version:                 rapid.OneOf(rapid.SampledFrom([]int32{1, 2, 0x20000000, 0x3fffe000, -1, -0x80000000, 0}), rapid.Int32()).Draw(t, "version"),
 			PreviousBlockHeaderHash: c29GenHash(t, "prev"),
 			MerkleRootHash:          c29GenHash(t, "root"),
 			Time:                    c29GenUint32(t, "time"),
